@@ -154,6 +154,22 @@ def ByteBuilder.finish (b : ByteBuilder) (t : DType) : ArrayData :=
   { type := t, len := b.offsets.length - 1, offset := 0, nulls := mkNulls b.valid,
     buffers := [encInts (offW (isLarge t)) b.offsets, b.values], children := [] }
 
+/-- byte width of a fixed-width layout -/
+def fixedWidth : DType → Nat
+  | .prim w => w
+  | .fsb w => w
+  | _ => 0
+
+/-- the `len · w` value bytes of a fixed-width array -/
+def windowFixed (d : ArrayData) : List Nat :=
+  ((d.buffers.headD []).drop (d.offset * fixedWidth d.type)).take (d.len * fixedWidth d.type)
+
+/-- `concat_primitives` / `concat_fixed_size_binary`: value windows and validity appended in order -/
+def concatFixed (d : ArrayData) (ds : List ArrayData) : ArrayData :=
+  { type := d.type, len := ((d :: ds).map (·.len)).sum, offset := 0,
+    nulls := mkNulls ((d :: ds).flatMap validBits),
+    buffers := [(d :: ds).flatMap windowFixed], children := [] }
+
 /-- `concat_bytes` -/
 def concatBytes (d : ArrayData) (ds : List ArrayData) : ArrayData :=
   ((d :: ds).foldl ByteBuilder.appendArray ByteBuilder.empty).finish d.type
